@@ -487,6 +487,13 @@ def rule_components_init(repo, rep):
   rep.add(Ra, '_util._auto_select_init', 'derived' if ok else 'refuted',
           site(g), detail)
   # shape checks
+  # role: n_features = the local holding input.shape[-1] / input.shape[1]
+  nf_roles = {}
+  for n_ in ast.walk(f.node):
+    if isinstance(n_, ast.Assign) and isinstance(n_.targets[0], ast.Name) and \
+            ast.unparse(n_.value) in ('input.shape[-1]', 'input.shape[1]'):
+      nf_roles[n_.targets[0].id] = 'n_features'
+  f = astutil.role_view(f, nf_roles)
   conds_needed = {'init.shape[1] != n_features': False,
                   'init.shape[0] > init.shape[1]': False,
                   'init.shape[0] != n_components': False}
